@@ -9,11 +9,13 @@ open RH
 /-- facts about a configuration that the proofs use; both instances satisfy them (`cfg64_ok`, `cfg32_ok`) -/
 structure CfgOK (c : Cfg) : Prop where
   W_eq : c.W = 2 ^ c.dShift
-  W_pos : 2 ≤ c.W
+  W_pos : 4 ≤ c.W
   codec : TinyC.CodecOK c.codec
   /-- `compute_array_bits(e) ≥ b` (for a bitmap width `0 < b < W`) means `e` has at most `W - b` bits -/
   cab_bound : ∀ e b, e < 2 ^ c.W → 0 < b → b < c.W → b ≤ c.cab e → e < 2 ^ (c.W - b)
   cab_le : ∀ e, 2 ≤ e → c.cab e ≤ c.W
+  /-- `compute_array_bits` is a small number (at most 62), in particular a `W`-bit value -/
+  cab_lt : ∀ e, c.cab e < 2 ^ c.W
   denseCap_pos : ∀ mx, 0 < c.denseCap mx
   /-- the grown dense block contains the word of the element that caused the growth -/
   grow : ∀ e, e >>> c.dShift < c.denseGrow e
@@ -53,10 +55,10 @@ def WF (c : Cfg) : Rp → Prop
   | .stack t => StackWF c t
   | .heap sz cap bits a =>
     if isDense c bits then DenseWF c sz cap a
-    else if isPlain c bits then PlainWF bits sz a ∧ cap = a.size ∧ c.W < bits ∧ (∀ i, i < a.size → get a i < 2 ^ c.W)
+    else if isPlain c bits then PlainWF bits sz a ∧ cap = a.size ∧ c.W < bits ∧ (∀ i, i < a.size → get a i < 2 ^ c.W) ∧ bits < 2 ^ c.W
     else BitmapWF c sz cap bits a
 
-/-- what every well-formed value satisfies (derived in `Proofs/Abs.lean`) -/
+/-- what every well-formed value satisfies (derived from `WF` in `Proofs/Refine.lean`: `absOK_of_wf`) -/
 structure AbsOK (c : Cfg) (r : Rp) : Prop where
   nodup : (elems c r).Nodup
   len : len r = (elems c r).length
